@@ -256,6 +256,15 @@ func (sh *Shaper) callShape(c *ssa.CallCommon) *Shape {
 	return s
 }
 
+func isRangeIndexPhi(p *ssa.Phi) bool {
+	for _, e := range p.Edges {
+		if c, ok := e.(*ssa.Const); ok && c.Value != nil && c.Value.Kind() == constant.Int && c.Value.ExactString() == "-1" {
+			return true
+		}
+	}
+	return false
+}
+
 // mkFld selects a field; selecting from a literal yields the field's value.
 func mkFld(base *Shape, name string) *Shape {
 	if base.K == "lit" {
@@ -322,6 +331,11 @@ func (sh *Shaper) of(v ssa.Value) *Shape {
 	case *ssa.Builtin:
 		return atom("ref", "%"+v.Name())
 	case *ssa.Alloc:
+		// the address of a local assigned exactly once: render through the stored value
+		ai := sh.allocInfo(v)
+		if len(ai.whole) == 1 && len(ai.fields) == 0 {
+			return &Shape{K: "un", S: "&", A: []*Shape{sh.Of(ai.whole[0])}}
+		}
 		return atom("ref", "&"+allocName(v))
 	case *ssa.FieldAddr:
 		return mkFld(sh.addrBase(v.X), fieldName(v.X.Type(), v.Field))
@@ -346,6 +360,9 @@ func (sh *Shaper) of(v ssa.Value) *Shape {
 			return &Shape{K: "un", S: v.Op.String(), A: []*Shape{sh.Of(v.X)}}
 		}
 	case *ssa.BinOp:
+		if ph, ok := v.X.(*ssa.Phi); ok && v.Op == token.ADD && ph.Block().Comment == "rangeindex.loop" && v.Block() == ph.Block() && isRangeIndexPhi(ph) {
+			return atom("unk", "#i")
+		}
 		return &Shape{K: "bin", S: v.Op.String(), A: []*Shape{sh.Of(v.X), sh.Of(v.Y)}}
 	case *ssa.Call:
 		return sh.callShape(&v.Call)
@@ -374,6 +391,9 @@ func (sh *Shaper) of(v ssa.Value) *Shape {
 		}
 		return &Shape{K: "ext", S: strconv.Itoa(v.Index), A: []*Shape{sh.Of(v.Tuple)}}
 	case *ssa.Phi:
+		if c := v.Block().Comment; c == "rangeindex.loop" && isRangeIndexPhi(v) {
+			return atom("unk", "#i")
+		}
 		var alts []*Shape
 		for _, e := range v.Edges {
 			alts = append(alts, sh.Of(e))
@@ -500,6 +520,36 @@ func (sh *Shaper) allocObject(a *ssa.Alloc) *Shape {
 	if len(ai.whole) == 1 && len(ai.fields) == 0 {
 		// escapes (e.g. passed by pointer) but assigned once: still useful
 		return sh.Of(ai.whole[0])
+	}
+	if !ai.escapes && len(ai.whole) == 1 && len(ai.fields) > 0 {
+		if base := sh.Of(ai.whole[0]); base.K == "lit" {
+			// a literal later refined by field assignments: flow-insensitive merge
+			l := &Shape{K: "lit", S: base.S, F: append([]string{}, base.F...), A: append([]*Shape{}, base.A...)}
+			var idx []int
+			for i := range ai.fields {
+				idx = append(idx, i)
+			}
+			sort.Ints(idx)
+			for _, i := range idx {
+				name := fieldName(a.Type(), i)
+				var alts []*Shape
+				for _, s := range ai.fields[i] {
+					alts = append(alts, sh.Of(s))
+				}
+				found := false
+				for k, f := range l.F {
+					if f == name {
+						l.A[k] = mkPhi(append(alts, l.A[k]))
+						found = true
+					}
+				}
+				if !found {
+					l.F = append(l.F, name)
+					l.A = append(l.A, mkPhi(alts))
+				}
+			}
+			return l
+		}
 	}
 	return atom("ref", "&"+allocName(a))
 }
@@ -651,6 +701,13 @@ func (p *pparser) expr() *Shape {
 			p.i++
 		}
 		cur = atom("ref", p.s[j:p.i])
+	case c == '#':
+		j := p.i
+		p.i++
+		for p.i < len(p.s) && isIdent(p.s[p.i]) {
+			p.i++
+		}
+		cur = atom("unk", p.s[j:p.i])
 	case strings.HasPrefix(p.s[p.i:], "lit:"):
 		p.i += 4
 		j := p.i
